@@ -232,8 +232,8 @@ def t_hardswish(p):
             S("exact_f64", "alpha=1/6;beta=0.5;opset>=14;double", mk(dtype="float64")),
             S("exact_f16", "alpha=1/6;beta=0.5;opset>=14;float16", mk(dtype="float16")),
             S("opset13", "opset<14", mk(opset=13)), S("opset13_xfirst", "opset<14", mk(opset=13, mul_clip_first=False)),
-            S("alpha_close", "alpha~1/6", mk(alpha=(1 / 6) * (1 + 8e-6), tight=True)),
-            S("beta_close", "beta~0.5", mk(beta=0.5 * (1 + 8e-6), tight=True)),
+            S("alpha_close", "constants only approximately equal", mk(alpha=(1 / 6) * (1 + 8e-6), tight=True)),
+            S("beta_close", "constants only approximately equal", mk(beta=0.5 * (1 + 8e-6), tight=True)),
             S("alpha_default_absent", "alpha absent", mk(alpha=None)), S("beta_absent", "beta absent", mk(beta=None)),
             S("alpha_0.2", "alpha=0.2", mk(alpha=0.2)), S("beta_0.4", "beta=0.4", mk(beta=0.4)),
             S("mid_is_output", "intermediate-is-output", mk(tap="output")), S("mid_has_consumer", "intermediate-has-consumer", mk(tap="consumer")),
@@ -252,9 +252,9 @@ def t_hardswish(p):
         S("exact_rank0_opset22", f"{ok};opset>=14", mk(xshape=(), opset=22)),
         S("exact_sym_rank4", f"{ok};opset>=14", mk(xshape=(2, 1, 2, 3), decl=["N", 1, 2, 3])),
         S("exact_f64", f"{ok};double", mk(dtype="float64")), S("exact_f16", f"{ok};float16", mk(dtype="float16")),
-        S("bias_close", "constant within rtol 1e-4", mk(consts=(3.0 * (1 + r), 0.0, 6.0, 6.0), tight=True)),
-        S("max_close", "constant within rtol 1e-4", mk(consts=(3.0, 0.0, 6.0 * (1 - r), 6.0), tight=True)),
-        S("div_close", "constant within rtol 1e-4", mk(consts=(3.0, 0.0, 6.0, 6.0 * (1 + r)), tight=True)),
+        S("bias_close", "constants only approximately equal", mk(consts=(3.0 * (1 + r), 0.0, 6.0, 6.0), tight=True)),
+        S("max_close", "constants only approximately equal", mk(consts=(3.0, 0.0, 6.0 * (1 - r), 6.0), tight=True)),
+        S("div_close", "constants only approximately equal", mk(consts=(3.0, 0.0, 6.0, 6.0 * (1 + r)), tight=True)),
         S("min_eps", "clip min ~0", mk(consts=(3.0, 1e-9, 6.0, 6.0), tight=True)),
         S("bias_off", "constant off by 1e-3", mk(consts=(3.003, 0.0, 6.0, 6.0))),
         S("div_off", "constant off", mk(consts=(3.0, 0.0, 6.0, 5.0))),
@@ -314,8 +314,8 @@ def t_reshape_matmul(p):
             S("no_c", "C absent", mk(**base)),
             S("rank4_a", "flatten leading dims;C=[N]", mk(a=(2, 1, 3, 4), b=(4, 5), sa=(6, 4), sb=None, sc=(2, 1, 3, 5), cshape=(5,))),
             S("noop_reshape", "reshapes are no-ops", mk(a=(3, 4), b=(4, 5), sa=(3, 4), sb=None, sc=(3, 5), cshape=(5,))),
-            S("transB_square", "transB=1", mk(a=(2, 3, 4), b=(4, 4), sa=(6, 4), sb=None, sc=(2, 3, 4), cshape=(4,), gemm={"transB": 1})),
-            S("transA_square", "transA=1", mk(a=(2, 2, 4), b=(4, 5), sa=(4, 4), sb=None, sc=(2, 2, 5), cshape=(5,), gemm={"transA": 1})),
+            S("transB_square", "transA/transB=1", mk(a=(2, 3, 4), b=(4, 4), sa=(6, 4), sb=None, sc=(2, 3, 4), cshape=(4,), gemm={"transB": 1})),
+            S("transA_square", "transA/transB=1", mk(a=(2, 2, 4), b=(4, 5), sa=(4, 4), sb=None, sc=(2, 2, 5), cshape=(5,), gemm={"transA": 1})),
             S("transB0_explicit", "transB=0 explicit", mk(**base, cshape=(5,), gemm={"transB": 0})),
             S("alpha_2", "alpha!=1", mk(**base, cshape=(5,), gemm={"alpha": 2.0})),
             S("beta_half", "beta!=1", mk(**base, cshape=(5,), gemm={"beta": 0.5})),
@@ -509,6 +509,10 @@ def t_expand_binary(p):
                     "other_supplies", "other_supplies_rank", "sym_shape_of_other", "dyn_shape_graph_input", "init_input_shape",
                     "expand_has_consumer", "scalar_expanded"):
                 st["cond"] = "PRelu slope larger than x"
+    if op == "BitShift":
+        # `direction` is a required attribute: every firing loses it
+        for st in out:
+            st["cond"] = "attribute dropped"
     if op == "Mod":
         out.append(S("fmod_attr_first", "attribute dropped", mk([1, 4], [3, 4], [3, 4], "first", at={"fmod": 1})))
         out.append(S("fmod_float_second", "attribute dropped", mk([1, 4], [3, 4], [3, 4], "second", at={"fmod": 1}, fdt="float32")))
